@@ -2,7 +2,7 @@
   XlVerif.Lemmas.C02Num — what `float(token)` (the model's `pyFloatOfText`) says about the operand
   texts of a well-formed formula: every numeric literal converts (so pass 3 types it `number`), every
   reference text and TRUE/FALSE do not (so they become `range` / `logical`); the scientific-notation
-  guard `matchSN` fires exactly inside `d(.ddd)?E±` literals.
+  guard `matchSN` fires exactly inside scientific literals (any decimal mantissa, then `E±`).
   (The digit-scanner lemmas follow `Lemmas/C08Numeral.lean`.)
 -/
 import XlVerif.Lemmas.C02Lex
@@ -37,10 +37,6 @@ theorem plain_digitChar {d : Nat} (h : d < 10) : plainCh (digitChar d) = true :=
 
 theorem digitChar_not_eE {d : Nat} (h : d < 10) : digitChar d ≠ 'e' ∧ digitChar d ≠ 'E' := by
   rcases digit_cases h with rfl|rfl|rfl|rfl|rfl|rfl|rfl|rfl|rfl|rfl <;> decide
-
-theorem digitChar_19 {d : Nat} (h1 : 1 ≤ d) (h : d < 10) : ('1' ≤ digitChar d && digitChar d ≤ '9') = true := by
-  have : d = 1 ∨ d = 2 ∨ d = 3 ∨ d = 4 ∨ d = 5 ∨ d = 6 ∨ d = 7 ∨ d = 8 ∨ d = 9 := by omega
-  rcases this with rfl|rfl|rfl|rfl|rfl|rfl|rfl|rfl|rfl <;> decide
 
 /-! ### `digitsUS` on a run of digit characters -/
 
@@ -91,6 +87,13 @@ theorem digitsUS_digits (ds : List Nat) (hne : ds ≠ []) (hd : AllDigits ds)
     congr 3
     · simp
     · omega
+
+theorem digitsUS_stop (rest : List Char) (hs : Stop rest) : digitsUS rest = none := by
+  cases rest with
+  | nil => rfl
+  | cons c s =>
+    obtain ⟨h1, _⟩ := hs c s rfl
+    simp [digitsUS, h1]
 
 theorem foldl_digits (fp : List Nat) : ∀ acc : Nat,
     fp.foldl (fun a d => a * 10 + d) acc =
@@ -197,6 +200,20 @@ theorem mantOf_int_frac (ip : List Nat) (hne : ip ≠ []) (hd : AllDigits ip)
   rw [digitsUS_digits ip hne hd _ (stop_dot _)]
   simp only [digitsUS_digits fp hnf hf tail hs]
 
+theorem mantOf_int_dot (ip : List Nat) (hne : ip ≠ []) (hd : AllDigits ip) (tail : List Char)
+    (hs : Stop tail) :
+    mantOf (ip.map digitChar ++ '.' :: tail) = some (digitsVal ip, 0, tail) := by
+  unfold mantOf
+  rw [digitsUS_digits ip hne hd _ (stop_dot tail)]
+  simp only [digitsUS_stop tail hs]
+
+theorem mantOf_frac (fp : List Nat) (hnf : fp ≠ []) (hf : AllDigits fp) (tail : List Char)
+    (hs : Stop tail) :
+    mantOf ('.' :: (fp.map digitChar ++ tail)) = some (digitsVal fp, fp.length, tail) := by
+  unfold mantOf
+  rw [digitsUS_stop _ (stop_dot _)]
+  simp only [digitsUS_digits fp hnf hf tail hs]
+
 /-! ### numeric literals -/
 
 /-- the exponent part of a literal -/
@@ -262,7 +279,7 @@ theorem isWs_numText (n : NumLit) (h : n.WF) : ∀ c ∈ n.text, isWs c = false 
       simp only [fracText, List.mem_cons] at hc
       rcases hc with rfl | hc
       · decide
-      · exact hdig _ hfp.2 hc
+      · exact hdig _ hfp hc
   · cases he : n.exp with
     | none => rw [he] at hc; cases hc
     | some x =>
@@ -272,56 +289,96 @@ theorem isWs_numText (n : NumLit) (h : n.WF) : ∀ c ∈ n.text, isWs c = false 
       rcases hc with rfl | rfl | hc
       · decide
       · cases ng <;> decide
-      · exact hdig _ hexp.2.1 hc
+      · exact hdig _ hexp.2 hc
 
-/-- the head of a literal is a digit -/
-theorem numText_head (n : NumLit) (h : n.WF) : ∃ d s, d < 10 ∧ n.text = digitChar d :: s := by
+/-- the first character of a literal: a digit or the point -/
+def NumHead (c : Char) : Prop := c = '.' ∨ ∃ d, d < 10 ∧ c = digitChar d
+
+theorem NumHead.ne_sign {c : Char} (h : NumHead c) : c ≠ '+' ∧ c ≠ '-' := by
+  rcases h with rfl | ⟨d, hd, rfl⟩
+  · decide
+  · exact digitChar_ne_sign hd
+
+theorem NumHead.lower {c : Char} (h : NumHead c) : lower c = c := by
+  rcases h with rfl | ⟨d, hd, rfl⟩
+  · decide
+  · exact lower_digitChar hd
+
+theorem NumHead.ne_in {c : Char} (h : NumHead c) : c ≠ 'i' ∧ c ≠ 'n' := by
+  rcases h with rfl | ⟨d, hd, rfl⟩
+  · decide
+  · exact digitChar_ne_in hd
+
+/-- the head of a literal is a digit or the point -/
+theorem numText_head (n : NumLit) (h : n.WF) : ∃ c s, n.text = c :: s ∧ NumHead c := by
   obtain ⟨hne, hip, _, _⟩ := h
   rw [numText_eq]
   cases hi : n.ip with
-  | nil => exact absurd hi hne
-  | cons d ds => exact ⟨d, _, hip d (by simp [hi]), rfl⟩
+  | cons d ds => exact ⟨digitChar d, _, rfl, Or.inr ⟨d, hip d (by simp [hi]), rfl⟩⟩
+  | nil =>
+    cases hf : n.fp with
+    | none => simp [NumLit.fdigits, hi, hf] at hne
+    | some f => exact ⟨'.', f.map digitChar ++ expText n.exp, rfl, Or.inl rfl⟩
+
+theorem numText_ne_nil (n : NumLit) (h : n.WF) : n.text ≠ [] := by
+  obtain ⟨c, s, hs, _⟩ := numText_head n h
+  rw [hs]; simp
+
+/-- the mantissa scanner on the mantissa of every well-formed literal -/
+theorem mantOf_lit (n : NumLit) (h : n.WF) (tail : List Char) (hs : Stop tail) (hnd : ∀ s, tail ≠ '.' :: s) :
+    mantOf (n.ip.map digitChar ++ (fracText n.fp ++ tail)) =
+      some (digitsVal (n.ip ++ n.fdigits), n.fdigits.length, tail) := by
+  obtain ⟨hne, hip, hfp, _⟩ := h
+  cases hf : n.fp with
+  | none =>
+    have hi : n.ip ≠ [] := by simpa [NumLit.fdigits, hf] using hne
+    simp only [fracText, List.nil_append, NumLit.fdigits, hf, List.append_nil, List.length_nil]
+    exact mantOf_int n.ip hi hip _ hs hnd
+  | some f =>
+    rw [hf] at hfp
+    simp only [NumLit.fdigits, hf] at hne
+    simp only [fracText, List.cons_append, NumLit.fdigits, hf]
+    by_cases hi : n.ip = []
+    · have hf' : f ≠ [] := by simpa [hi] using hne
+      rw [hi]
+      simpa using mantOf_frac f hf' hfp tail hs
+    · by_cases hf' : f = []
+      · subst hf'
+        simpa using mantOf_int_dot n.ip hi hip tail hs
+      · rw [mantOf_int_frac n.ip hi hip f hf' hfp tail hs, digitsVal_append]
 
 theorem pyFloat_numText (n : NumLit) (h : n.WF) :
     pyFloatOfText n.text =
       finOf 1 (digitsVal (n.ip ++ n.fdigits)) n.fdigits.length (expVal n.exp) := by
   have hws := isWs_numText n h
-  obtain ⟨d, s, hd, hhead⟩ := numText_head n h
+  obtain ⟨c0, s, hhead, hc0⟩ := numText_head n h
+  have hm := mantOf_lit n h
   obtain ⟨hne, hip, hfp, hexp⟩ := h
   rw [pyFloatOfText_eq, strip_nonws _ hws]
   have hsign : signOf n.text = (1, n.text) := by
     apply signOf_noSign
     intro c s' hc
-    rw [hhead] at hc; cases hc; exact digitChar_ne_sign hd
+    rw [hhead] at hc; cases hc; exact hc0.ne_sign
   have hinf : ¬ (n.text.map lower = "inf".toList ∨ n.text.map lower = "infinity".toList ∨
       n.text.map lower = "nan".toList) := by
     have e1 : "inf".toList = ['i', 'n', 'f'] := rfl
     have e2 : "infinity".toList = ['i', 'n', 'f', 'i', 'n', 'i', 't', 'y'] := rfl
     have e3 : "nan".toList = ['n', 'a', 'n'] := rfl
     rw [e1, e2, e3, hhead]
-    simp only [List.map_cons, lower_digitChar hd, List.cons.injEq]
-    have := digitChar_ne_in hd
+    simp only [List.map_cons, hc0.lower, List.cons.injEq]
+    have := hc0.ne_in
     simp [this.1, this.2]
   simp only [hsign, hinf, if_false]
   have hexp' : match n.exp with | none => True | some (_, ds) => ds ≠ [] ∧ AllDigits ds := by
     cases he : n.exp with
     | none => trivial
-    | some x => obtain ⟨ng, ds⟩ := x; rw [he] at hexp; exact ⟨hexp.1, hexp.2.1⟩
+    | some x => obtain ⟨ng, ds⟩ := x; rw [he] at hexp; exact ⟨hexp.1, hexp.2⟩
   have hnd : ∀ s, expText n.exp ≠ '.' :: s := by
     intro s; cases n.exp with
     | none => simp [expText]
     | some x => obtain ⟨ng, ds⟩ := x; simp [expText]
-  rw [numText_eq]
-  cases hf : n.fp with
-  | none =>
-    simp only [fracText, List.nil_append, NumLit.fdigits, hf, List.append_nil, List.length_nil]
-    rw [mantOf_int n.ip hne hip _ (stop_expText _) hnd]
-    exact tailOf_expText _ _ _ _ hexp'
-  | some f =>
-    rw [hf] at hfp
-    simp only [fracText, List.cons_append, NumLit.fdigits, hf]
-    rw [mantOf_int_frac n.ip hne hip f hfp.1 hfp.2 _ (stop_expText _), digitsVal_append]
-    exact tailOf_expText _ _ _ _ hexp'
+  rw [numText_eq, hm _ (stop_expText _) hnd]
+  exact tailOf_expText _ _ _ _ hexp'
 
 /-- pass 3 types every numeric literal as a number -/
 theorem floatOk_numText (n : NumLit) (h : n.WF) : floatOk (.s n.text) = true := by
@@ -714,34 +771,33 @@ theorem ref_not_bool (r : Ref) (h : r.WF) :
 /-! ### the scientific-notation guard -/
 
 theorem matchSN_last (t : List Char) (h : matchSN t = true) : ∃ p, t = p ++ ['e'] ∨ t = p ++ ['E'] := by
-  cases t with
-  | nil => simp [matchSN] at h
-  | cons d rest =>
-    unfold matchSN at h
-    by_cases hd : ('1' ≤ d && d ≤ '9') = true
-    · simp only [hd, if_true] at h
-      cases rest with
-      | nil => cases h
-      | cons x more =>
-        cases more with
-        | nil =>
-          simp only [Bool.or_eq_true, decide_eq_true_eq] at h
-          rcases h with rfl | rfl
-          · exact ⟨[d], Or.inl rfl⟩
-          · exact ⟨[d], Or.inr rfl⟩
-        | cons y ys =>
-          by_cases hx : x = '.'
-          · subst hx
-            simp only [Bool.and_eq_true, Bool.or_eq_true, decide_eq_true_eq] at h
-            have hsplit := List.takeWhile_append_dropWhile (p := isDigit) (l := y :: ys)
-            rcases h.2 with e | e
-            · exact ⟨d :: '.' :: (y :: ys).takeWhile isDigit, Or.inl (by rw [← e]; simp [hsplit])⟩
-            · exact ⟨d :: '.' :: (y :: ys).takeWhile isDigit, Or.inr (by rw [← e]; simp [hsplit])⟩
-          · split at h
-            · rename_i heq; cases heq
-            · rename_i heq; simp only [List.cons.injEq] at heq; exact absurd heq.1 hx
-            · cases h
-    · simp only [hd, Bool.false_eq_true, if_false] at h
+  have hsplit := List.takeWhile_append_dropWhile (p := isDigit) (l := t)
+  unfold matchSN at h
+  simp only at h
+  split at h
+  · cases h
+  · rename_i c more heq
+    rw [heq] at hsplit
+    by_cases hc : c = '.'
+    · subst hc
+      simp only [if_true, Bool.and_eq_true, Bool.or_eq_true, decide_eq_true_eq] at h
+      have hsplit2 := List.takeWhile_append_dropWhile (p := isDigit) (l := more)
+      rcases h.2 with e | e
+      · have hm : more = more.takeWhile isDigit ++ ['e'] := by rw [← e]; exact hsplit2.symm
+        refine ⟨t.takeWhile isDigit ++ '.' :: more.takeWhile isDigit, Or.inl ?_⟩
+        conv => lhs; rw [← hsplit, hm]
+        simp
+      · have hm : more = more.takeWhile isDigit ++ ['E'] := by rw [← e]; exact hsplit2.symm
+        refine ⟨t.takeWhile isDigit ++ '.' :: more.takeWhile isDigit, Or.inr ?_⟩
+        conv => lhs; rw [← hsplit, hm]
+        simp
+    · simp only [hc, if_false, Bool.and_eq_true, Bool.or_eq_true, decide_eq_true_eq,
+        List.isEmpty_iff] at h
+      obtain ⟨⟨_, hmore⟩, hce⟩ := h
+      subst hmore
+      rcases hce with rfl | rfl
+      · exact ⟨_, Or.inl hsplit.symm⟩
+      · exact ⟨_, Or.inr hsplit.symm⟩
 
 /-- a token that ends in a digit is not the start of a scientific-notation literal -/
 theorem noSN_ends_digit (q : List Char) (d : Nat) (hd : d < 10) : NoSN (q ++ [digitChar d]) := by
@@ -762,22 +818,62 @@ theorem takeWhile_digits (ds : List Nat) (hd : AllDigits ds) (x : Char) (hx : is
     have := ih (fun y hy => hd y (by simp [hy]))
     simp [isDigit_digitChar (hd d (by simp)), this.1, this.2]
 
-/-- the mantissa of a scientific literal, followed by `E`, triggers the guard -/
-theorem matchSN_mant (d : Nat) (h1 : 1 ≤ d) (hd : d < 10) (fp : Option (List Nat))
-    (hfp : match fp with | none => True | some f => f ≠ [] ∧ AllDigits f) :
-    matchSN ([digitChar d] ++ fracText fp ++ ['E']) = true := by
+/-- the mantissa of a scientific literal — any decimal numeral — followed by `E`, triggers the guard -/
+theorem matchSN_mant (ip : List Nat) (hip : AllDigits ip) (fp : Option (List Nat))
+    (hfp : match fp with | none => True | some f => AllDigits f)
+    (hne : ip ≠ [] ∨ (match fp with | none => [] | some f => f) ≠ []) :
+    matchSN (ip.map digitChar ++ (fracText fp ++ ['E'])) = true := by
   cases fp with
-  | none => simp [fracText, matchSN, digitChar_19 h1 hd]
+  | none =>
+    have hi : ip ≠ [] := by simpa using hne
+    have := takeWhile_digits ip hip 'E' (by decide) []
+    simp only [fracText, List.nil_append, matchSN, this.1, this.2]
+    simpa using hi
   | some f =>
-    obtain ⟨hne, hf⟩ := hfp
-    have := takeWhile_digits f hf 'E' (by decide) []
-    cases f with
-    | nil => exact absurd rfl hne
-    | cons d0 f' =>
-      simp only [fracText, List.cons_append, List.nil_append, matchSN, digitChar_19 h1 hd, if_true,
-        List.map_cons]
-      simp only [List.map_cons, List.cons_append] at this
-      rw [this.1, this.2]
-      simp
+    have h1 := takeWhile_digits ip hip '.' (by decide) (f.map digitChar ++ ['E'])
+    have h2 := takeWhile_digits f hfp 'E' (by decide) []
+    simp only [fracText, List.cons_append, matchSN, h1.1, h1.2, h2.1, h2.2, if_true]
+    simpa using hne
+
+/-- a literal's own text never looks like the start of a scientific-notation literal: it ends in a digit
+    or (for `5.`) in the point -/
+theorem noSN_numText (n : NumLit) (h : n.WF) : NoSN n.text := by
+  obtain ⟨hne, hip, hfp, hexp⟩ := h
+  intro hsn
+  obtain ⟨p, hp⟩ := matchSN_last _ hsn.2
+  have hlast : ∀ (q : List Char) (x : Char), x ≠ 'e' → x ≠ 'E' → n.text = q ++ [x] → False := by
+    intro q x h1 h2 e
+    rcases hp with hp | hp <;> rw [e] at hp
+    · exact h1 (by simpa using (List.append_inj' hp rfl).2)
+    · exact h2 (by simpa using (List.append_inj' hp rfl).2)
+  have last : ∀ ds : List Nat, ds ≠ [] → AllDigits ds → ∃ q d, d < 10 ∧ ds.map digitChar = q ++ [digitChar d] := by
+    intro ds hne hd
+    cases hr : ds.reverse with
+    | nil => simp at hr; exact absurd hr hne
+    | cons d ds' =>
+      have : ds = ds'.reverse ++ [d] := by rw [← List.reverse_reverse ds, hr]; simp
+      exact ⟨ds'.reverse.map digitChar, d, hd d (by rw [this]; simp), by rw [this]; simp⟩
+  cases he : n.exp with
+  | some x =>
+    obtain ⟨ng, ds⟩ := x
+    rw [he] at hexp
+    obtain ⟨q, d, hd, e⟩ := last ds hexp.1 hexp.2
+    exact hlast (n.ip.map digitChar ++ (fracText n.fp ++ ('E' :: (if ng then '-' else '+') :: q))) _
+      (digitChar_not_eE hd).1 (digitChar_not_eE hd).2 (by rw [numText_eq, he]; simp [expText, e])
+  | none =>
+    cases hf : n.fp with
+    | some f =>
+      rw [hf] at hfp
+      by_cases hf' : f = []
+      · exact hlast (n.ip.map digitChar) '.' (by decide) (by decide) (by
+          rw [numText_eq, he, hf, hf']; simp [expText, fracText])
+      · obtain ⟨q, d, hd, e⟩ := last f hf' hfp
+        exact hlast (n.ip.map digitChar ++ '.' :: q) _ (digitChar_not_eE hd).1 (digitChar_not_eE hd).2 (by
+          rw [numText_eq, he, hf]; simp [expText, fracText, e])
+    | none =>
+      have hi : n.ip ≠ [] := by simpa [NumLit.fdigits, hf] using hne
+      obtain ⟨q, d, hd, e⟩ := last n.ip hi hip
+      exact hlast q _ (digitChar_not_eE hd).1 (digitChar_not_eE hd).2 (by
+        rw [numText_eq, he, hf]; simp [expText, fracText, e])
 
 end XlVerif.Lemmas.C02
